@@ -52,10 +52,15 @@ def make_contexts(m, rng, k):
             n = o['name']
             if o['type'] == 'int':
                 lo, hi = int_range(o)
-                lo, hi = max(lo, -MAXI), min(hi, MAXI)
                 cand = [v for v in ints if lo <= v <= hi] or [0]
                 v = rng.choice(cand) if rng.random() < 0.85 else rng.randint(max(lo, -1000), min(hi, 1000))
-                cmds.append('V %s %d' % (n, v))
+                if hi > MAXI and rng.random() < 0.3:
+                    # types wider than the TLC integers: boundary values beyond 32 bits (the specification's limb model)
+                    big = [x for x in (MAXI, MAXI + 1, 2 ** 32 - 1, 2 ** 32, 2 ** 32 + 5, 3000000000, 2 ** 63 - 1, 2 ** 63, 2 ** 64 - 1,
+                                       -MAXI - 1, -MAXI - 2, -2 ** 32, -2 ** 63, 10 ** 12, -10 ** 12) if lo <= x <= hi]
+                    v = rng.choice(big)
+                # the driver reads a signed 64-bit value and casts it to the output's type
+                cmds.append('V %s %d' % (n, v - 2 ** 64 if v >= 2 ** 63 else v))
             elif o['type'] == 'bool':
                 cmds.append('V %s %d' % (n, rng.randint(0, 1)))
             elif o['type'] == 'enum':
